@@ -19,7 +19,7 @@ CHECKS = {
  "C03": _q("C03", "TLC enumerates sample layouts x value patterns x range x step x offset x @ x window (WindowLaw: sum_over_time over 2^t values is the membership bitmask of the closed window, model-checked on all), range function chosen by seeded hash, tick 1000 ms and 500 ms.", "DESIGN.md §6 C03"),
  "C04": _q("C04", "TLC enumerates label configurations x presence histories x step counts x NaN/Inf members (AggLaw model-checked on all); aggregator, grouping and parameter chosen by seeded hash.", "DESIGN.md §6 C04"),
  "C05": _q("C05", "TLC enumerates label configurations of two metrics x presence histories x step counts (BinLaw model-checked on all); operator, matching, cardinality/include, bool, scalar operands and wrappers chosen by seeded hash; the specification also names the reason for which the reference fails a step.", "DESIGN.md §6 C05"),
- "C06": _q("C06", "TLC enumerates presence histories x value domains x step counts 1..101 x lookbacks (FuncLaw model-checked on all); 40 expression shapes over all native functions, scalars, unary minus and @-pinned parts chosen by seeded hash.", "DESIGN.md §6 C06"),
+ "C06": _q("C06", "TLC enumerates presence histories x value domains x step counts 1..101 x lookbacks (FuncLaw model-checked on all); 40 expression shapes over all native functions, scalars, unary minus and @-pinned parts chosen by seeded hash; Gen_Hist.tla enumerates histogram_quantile over 17 bucket layouts x presence histories x 9 quantiles x operand shapes (HistLaw model-checked; bucketQuantile transcribed in PromQLRef).", "DESIGN.md §6 C06"),
  "C07": {
   "text": "Design level: Volcano.tla (batch mechanics) model-checked for every topology and step count: one point per grid step, siblings aligned. Implementation level: for the scenarios of all TLC generators and seeded random ones the range query, instant queries at grid points on both sides of every batch boundary and sub-windows are executed on the real engine; TLC validates every observation against SessionTrace.tla (a result at a timestamp is a function of query, timestamp and data only).",
   "design_ref": "DESIGN.md §6 C07",
@@ -39,13 +39,13 @@ CHECKS = {
   "technique": "trace validation by TLC of recorded results against the ResultWF clauses of QueryTrace.tla",
  },
  "C08": {
-  "text": "Fallback.tla (creation outcome = function of expression and fallback switch; per-path counters) model-checked; the complete vocabulary of the pinned parser (emitted at check time) in every type-correct position x instant/range is created with fallback on and off, executed and compared with the reference engine; TLC validates F1-F4 of FallbackTrace.tla.",
+  "text": "Fallback.tla (creation outcome = function of expression and fallback switch; per-path counters) model-checked; the complete vocabulary of the pinned parser (emitted at check time) in every type-correct position x instant/range is created with fallback on and off, executed and compared with the reference engine; and the construct each text is built around is created on its own; TLC validates F1-F5 of FallbackTrace.tla (F5: a vector/scalar construct that falls back on its own is never part of a natively evaluated query).",
   "design_ref": "DESIGN.md §6 C08",
   "note": "Trusted: path = dynamic type of the returned query, counter read through Opts.Reg, Prometheus as oracle, comparator.",
   "technique": "TLC-enumerated vocabulary scenarios replayed into the engine + trace validation by TLC (FallbackTrace) + model checking of Fallback.tla",
  },
  "C09": {
-  "text": "Optimizer.tla transcribes MergeSelects (heap, subset test, filter derivation, in-engine filter) and PropagateMatchers; TLC checks exhaustively over all ordered selector pairs of the matcher alphabet and the all-label-presence dataset that rewritten selection = original selection; the pairs are replayed in 10 positions under 8 optimizer sets; TLC validates SessionTrace.tla (result independent of the optimizer set).",
+  "text": "Optimizer.tla transcribes MergeSelects (heap, subset test, filter derivation, in-engine filter) and PropagateMatchers; TLC checks exhaustively over all ordered selector pairs of the matcher alphabet and the all-label-presence dataset that rewritten selection = original selection; the pairs are replayed in 13 positions (incl. direct operands matched on a subset of the labels) under 8 optimizer sets; TLC validates SessionTrace.tla (result independent of the optimizer set).",
   "design_ref": "DESIGN.md §6 C09",
   "note": "Trusted: comparator classes; the model is a transcription (drift shows as replay disagreement, never as a verdict by itself).",
   "technique": "exhaustive TLC model checking of Optimizer.tla + replay of the enumerated pairs under all optimizer sets + trace validation by TLC (SessionTrace)",
@@ -69,7 +69,7 @@ CHECKS = {
   "technique": "TLC model checking of Hints.tla + replay with recording / pruning storage + trace validation by TLC (SessionTrace)",
  },
  "C20": {
-  "text": "TLC simulation of Session.tla produces histories (12/30/50 operations: executions of 14 queries incl. failing, fallback, cancelled; appends of samples/series/markers/gaps; closes) replayed on one engine and one growing storage; after every operation all earlier results are compared with their deep snapshots and each execution with a fresh engine; TLC validates SessionTrace.tla (memo per data version; ReturnedResultsImmutable).",
+  "text": "TLC simulation of Session.tla produces histories (12/30/50 operations: executions of 25 queries incl. failing, fallback, cancelled, name-dropping over a metric hand-over; half of the 30-operation histories draw from three queries chosen per history; every other history runs on one processor; appends of samples/series/markers/gaps; closes) replayed on one engine and one growing storage; after every operation all earlier results are compared with their deep snapshots and each execution with a fresh engine; TLC validates SessionTrace.tla (memo per data version; ReturnedResultsImmutable).",
   "design_ref": "DESIGN.md §6 C20",
   "note": "Trusted: deep snapshots taken by the harness at return time; random walks, not exhaustive. Windows with and without a per-query lookback; the long-lived engine is a plain engine or a distributed engine over long-lived local engines (compared with a freshly built one of the same kind).",
   "technique": "TLC-simulated histories of Session.tla replayed into one engine instance + trace validation by TLC (SessionTrace)",
